@@ -8,7 +8,7 @@ S = "ExcludeRegionState.ExcludeRegionState."
 FUNCTIONS = [P + "on_api_command", P + "_handleAddExcludeRegion", P + "_handleDeleteExcludeRegion",
              P + "_handleUpdateExcludeRegion", S + "addRegion", S + "deleteRegion", S + "replaceRegion", S + "getRegion",
              "RectangularRegion.RectangularRegion.containsRegion", "CircularRegion.CircularRegion.containsRegion",
-             "RectangularRegion.RectangularRegion.containsPoint", "CircularRegion.CircularRegion.containsPoint", "__init__.ExcludeRegionPlugin._handleSettingsUpdated"]
+             "RectangularRegion.RectangularRegion.containsPoint", "CircularRegion.CircularRegion.containsPoint", "__init__.ExcludeRegionPlugin._handleSettingsUpdated"] + ["CommonMixin.CommonMixin.toDict"]
 ASSUMPTIONS = ["A1", "A2", "A3", "A4", "INDUCTION"]
 EXPLANATION = ("For an arbitrary (skolemised) point p and an arbitrary region list: while printing without the shrink "
                "permission, excluded(list, p) implies excluded(list', p) for every API request; refused requests leave "
